@@ -1132,3 +1132,147 @@ def r14(R):
                          'destination transaction left open on failure'),
                         v.message, g, v.path)
     R.require(n >= 2, 'copy loops that begin destination transactions: %d' % n)
+
+
+# ------------------------------------------------------------------ C17.R15
+FITER = 'ZODB.FileStorage.FileStorage.FileIterator'
+ORD = {ast.Lt: {'lt'}, ast.LtE: {'lt', 'eq'}, ast.Gt: {'gt'},
+       ast.GtE: {'gt', 'eq'}, ast.Eq: {'eq'}, ast.NotEq: {'lt', 'gt'}}
+
+
+@rule('C17.R15', 'an iterator asked to start at an id starts at the first '
+      'transaction whose id is not below it: each scan sets the start '
+      'position AT a transaction only when its id is known not to be below '
+      'the requested one, and PAST a transaction only when it is known to '
+      'be below', props=['C04'], min_instances=2)
+def r15(R):
+    cls = R.prog.cls(FITER)
+    n = 0
+    for meth in ('_scan_forward', '_scan_backward'):
+        f = R.method(cls, meth)
+        g, b, F = R.cfg(f, cls, max_depth=0)
+        ps = [p for p in f.params if p != 'self']
+        start = ps[1]
+        ALL = frozenset({'lt', 'eq', 'gt'})
+        sets = [0]
+
+        def edge(node, st, lab, tgt, F=F, start=start):
+            possible, hdr, at_pos = st
+            if node.kind == 'test' and lab in ('T', 'F'):
+                for e, truth in implied_atoms(node.ast, lab):
+                    for l, op, r in cmp_sides(e):
+                        if isinstance(l, ast.Attribute) and l.attr == 'tid' \
+                                and isinstance(l.value, ast.Name) and \
+                                l.value.id == hdr and isinstance(
+                                    r, ast.Name) and r.id == start and \
+                                op in ORD:
+                            s_ = ORD[op]
+                            possible = frozenset(
+                                possible & s_ if truth else possible - s_)
+                            break
+            if lab in ('e', 'eb'):
+                return (possible, hdr, at_pos)
+            for op in F.ops(node):
+                if op.kind == 'store' and op.path and \
+                        op.path[0] == '%local':
+                    v = store_value(op)
+                    if isinstance(v, ast.Call) and isinstance(
+                            v.func, ast.Attribute) and \
+                            v.func.attr == '_read_txn_header' and v.args \
+                            and isinstance(v.args[0], ast.Name):
+                        hdr, at_pos, possible = op.path[1], v.args[0].id, ALL
+                    elif op.path[1] == at_pos:
+                        at_pos = None       # the local moved on
+                elif op.kind == 'aug' and op.path and \
+                        op.path[0] == '%local' and op.path[1] == at_pos:
+                    at_pos = None
+            return (possible, hdr, at_pos)
+
+        def at(node, st, F=F, meth=meth, sets=sets):
+            possible, hdr, at_pos = st
+            for op in F.ops(node):
+                if op.kind == 'store' and path_is(op.path, ('self', '_pos')):
+                    sets[0] += 1
+                    v = store_value(op)
+                    if hdr is None or at_pos is None:
+                        continue
+                    if isinstance(v, ast.Name) and v.id == at_pos:
+                        if 'lt' in possible:
+                            return Violation(
+                                '%s starts the iteration AT a transaction '
+                                'whose id may be below the requested start: '
+                                'iterator(start) yields a transaction older '
+                                'than `start` (an incremental copy from '
+                                'last+1 stores the last transaction twice)'
+                                % meth)
+                    elif isinstance(v, ast.BinOp) and isinstance(
+                            v.op, ast.Add) and any(
+                                isinstance(x, ast.Name) and x.id == at_pos
+                                for x in ast.walk(v)):
+                        if possible - {'lt'}:
+                            return Violation(
+                                '%s starts the iteration PAST a transaction '
+                                'whose id may be the requested start or '
+                                'later: iterator(start) skips a transaction '
+                                'it was asked for' % meth)
+            return st
+
+        vs, stats = explore(g, (ALL, None, None), at=at, edge=edge)
+        R.count(stats)
+        n += 1
+        R.instance('FileIterator.%s' % meth, start_position_stores=sets[0])
+        R.require(sets[0] or vs, '%s no longer sets the start position' %
+                  meth)
+        for v in vs:
+            R.violation(v.node, v.message, g, v.path)
+    R.require(n >= 2, 'scan functions vanished')
+
+
+# ------------------------------------------------------------------ C17.R16
+@rule('C17.R16', 'the iterator of a file storage opened with a stop bound '
+      '(time travel) is bounded by it: iterator() passes a bound derived '
+      'from the storage\'s own stop to the file iterator',
+      props=['C09', 'C15'], min_instances=1)
+def r16(R):
+    cls = R.prog.cls(FS)
+    init = R.method(cls, '__init__')
+    if 'stop' not in init.params:
+        R.observe('FileStorage has no stop bound any more')
+        return
+    # where __init__ keeps the bound
+    kept = set()
+    for s in walk_local(init.node):
+        if isinstance(s, ast.Assign) and isinstance(s.value, ast.Name) and \
+                s.value.id == 'stop':
+            for t in s.targets:
+                if isinstance(t, ast.Attribute) and isinstance(
+                        t.value, ast.Name) and t.value.id == 'self':
+                    kept.add(t.attr)
+    f = R.method(cls, 'iterator')
+    g, b, F = R.cfg(f, cls, max_depth=0)
+    R.instance('FileStorage.iterator', stop_kept_in=sorted(kept))
+    n = 0
+    for nid in g.reachable():
+        for op in F.ops(g.nodes[nid]):
+            if op.kind == 'call' and op.path and \
+                    op.path[-1].split('.')[-1] == 'FileIterator':
+                n += 1
+                a = op.ast.args
+                bound = a[2] if len(a) > 2 else None
+                for kw in op.ast.keywords:
+                    if kw.arg == 'stop':
+                        bound = kw.value
+                pv = provenance(bound, g.nodes[nid].frame, F) \
+                    if bound is not None else set()
+                if not any(k == 'path' and len(v) == 2 and v[0] == 'self'
+                           and v[1] in kept for k, v in pv):
+                    R.violation(
+                        g.nodes[nid],
+                        'FileStorage.iterator hands the file iterator a '
+                        'bound that does not depend on the storage\'s own '
+                        'stop: a time-travel storage (read_only, stop=tid) '
+                        'ends before `stop`, its iterator -- and a '
+                        'copyTransactionsFrom of it -- goes on to the end '
+                        'of the file',
+                        key='iterator not bounded by the storage stop')
+    R.require(n >= 1, 'FileStorage.iterator no longer builds a FileIterator')
